@@ -1,0 +1,22 @@
+//go:build verif
+
+// Verification hooks (read-only): compiled only with -tags verif.
+
+package replayfilter
+
+import "fmt"
+
+// VerifConstants returns the package constants as the compiler evaluated them.
+func VerifConstants() map[string]string {
+	m := map[string]string{}
+	put := func(k string, v interface{}) { m[k] = fmt.Sprint(v) }
+	put("maxFilterSize", maxFilterSize)
+	return m
+}
+
+// VerifLen returns the number of entries currently remembered (map and fifo sizes).
+func VerifLen(f *ReplayFilter) (int, int) {
+	f.Lock()
+	defer f.Unlock()
+	return len(f.filter), f.fifo.Len()
+}
